@@ -239,6 +239,23 @@ class Run:
         # else: a strategy that never subscribes to order events and polls instead - what the exchange reports through
         # get_order_info / get_orders / get_open_orders must not depend on anybody listening
         self.d.subscribe_all(self.post_sniffer)
+        if len(repr(sorted(sc["actions"]))) % 3 == 0:
+            # another account lives in the same process and is configured differently (finer precisions everywhere,
+            # its own fee and lending objects): nothing of it may show in this one
+            from basana.core import dispatcher as _disp
+            self.stats["decoy_exchanges"] += 1
+            d2 = _disp.backtesting_dispatcher()
+            kw2: Dict[str, Any] = {"fee_strategy": fees.Percentage(D("7.77"), D("3"))}
+            if self.lend:
+                kw2["lending_strategy"] = lending.MarginLoans(self.lend["quote"], default_conditions=self._mk_cond(
+                    {"interest_symbol": self.lend["quote"], "pct": "99", "period_s": 60, "min": "1", "req": "5"}))
+            decoy = exchange.Exchange(d2, {s_: D(5) for s_ in self.symbols}, **kw2)
+            for s_, p_ in self.symbols.items():
+                decoy.set_symbol_precision(s_, min(p_ + 3, 12))
+            for pname, pr in self.pairs.items():
+                bp_, qp_ = self.pair_prec(pname)
+                decoy.set_pair_info(pr, PairInfo(min(bp_ + 3, 12), min(qp_ + 3, 12)))
+            self.decoy = decoy
         for job in sc.get("jobs", []):
             when = T(job["t"]) + (datetime.timedelta(minutes=30) if job.get("half") else datetime.timedelta(0)) + \
                 datetime.timedelta(microseconds=job.get("us", 0))
